@@ -113,6 +113,13 @@ def observe(prog, flavours):
         flav.append(o)
         if fl == "ext":
             first = (case, env, res, o)
+    if prog["decor"]:
+        # the reason of the decorator is data: an empty one must give the same bracket and outcome
+        for fl in flavours:
+            env2 = synth.Env(prog)
+            o, _res = synth._run(synth.SynthSkippedEmpty(env2), env2, fl)
+            o["name"] = fl + "-emptyreason"
+            flav.append(o)
     assert flavours[0] == "ext"
     case, env, res, o = first
     hpos = [i for i, e in enumerate(env.events) if e[0] == "handler"]
@@ -411,7 +418,52 @@ def expect_that_check(rep, tier):
                     expected={"allowed": v["allowed"]},
                     observed=tr["obs"]["flav"][0],
                 )
-    return len(traces)
+    return len(traces) + expect_that_async(rep)
+
+
+def expect_that_async(rep):
+    """C07's "expectThat never raises but makes the test fail once it has finished" under the Twisted runner:
+    scenarios of AsyncRunTest.tla (spec/twisted, ar_expect.cfg) in which one unit - setUp, test, tearDown or a
+    cleanup - makes a mismatching expectThat; the real AsynchronousDeferredRunTest must not report success."""
+    import gc
+
+    from . import c14
+
+    r = tlc.run_tlc("twisted", "MCAsyncRunTest", "ar_expect.cfg", coverage=True, timeout=1800, workers=4)
+    tlc.require_ok(r, "C07 ar_expect.cfg")
+    rep.add_tlc(r, "ar_expect.cfg")
+    n = 0
+    was = gc.isenabled()
+    gc.collect()
+    gc.disable()
+    try:
+        for row in tlc.exported(r):
+            scen, exp = row["scen"], row["exp"]
+            if scen["side"]["what"] != "expect":
+                continue
+            n += 1
+            scen["suppress"], scen["store"] = True, True
+            obs = c14.observe(scen)
+            if c14.risky(scen) or n % 50 == 0:
+                gc.collect(0)
+            rep.case(nontrivial_key="expect-async:" + jdump(scen))
+            rep.traces += 1
+            bad = c14.compare(exp, obs)
+            if "success-iff" in bad or "one-outcome" in bad:
+                rep.violation(
+                    "expectThat:async-runner",
+                    "expectThat:async:" + c14.signature(scen, "success-iff" if "success-iff" in bad else "one-outcome"),
+                    {"scenario": scen},
+                    expected=exp,
+                    observed=obs,
+                )
+    finally:
+        gc.collect()
+        if was:
+            gc.enable()
+    if n == 0:
+        raise tlc.MachineryError("C07: ar_expect.cfg exported no expectThat scenario")
+    return n
 
 
 def replay_file(path, pid):
